@@ -681,13 +681,10 @@ class Gen:
                 ls.vars[i] = Var(i, 'let', 'loopctr', assignable=False)
             body_scope = Scope(ls)
             body = self.stmts(body_scope, r.choice([1, 2, 3]), ctx2)
-            # closures capturing the loop variable
-            arrs = self.vars_of(scope, lambda v: v.ty == ('funarr',))
-            if arrs and r.random() < 0.7:
-                a = r.choice(arrs)
-                fd = dict(kind='arrow', params=[], rest=None, exprbody=True, body=[('return', ('var', i))])
-                body.insert(r.randrange(len(body) + 1),
-                            ('expr', ('setidx', ('var', a.name), ('get', ('var', a.name), 'length'), ('func', fd))))
+            # closures capturing the loop variable (or a let of the body), followed by a (labelled) continue
+            items = self.closure_jump_items(scope, i, lbl, kind == 'let')
+            pos = r.randrange(len(body) + 1)
+            body[pos:pos] = items
             upd = ('update', True, r.random() < 0.5, i)
             st = ('for', ('decl', kind, [('d', i, ('num', 0))]), ('bin', 'lt', ('var', i), ('num', bound)), upd, ('block', body))
         elif c < 0.8:
@@ -699,6 +696,9 @@ class Gen:
             scope.vars[k] = s.vars[k]
             out.append(('decl', 'var', [('d', k, ('num', 0))]))
             body = self.block(scope, ctx2, r.choice([1, 2, 3]))
+            items = self.closure_jump_items(scope, k, lbl, False)
+            pos = r.randrange(len(body[1]) + 1)
+            body[1][pos:pos] = items
             st = ('while', ('bin', 'lt', ('update', True, False, k), ('num', bound)), body)
         else:
             k = self.fresh()
@@ -706,11 +706,39 @@ class Gen:
             scope.vars[k] = Var(k, 'let', 'loopctr', assignable=False)
             out.append(('decl', 'let', [('d', k, ('num', 0))]))
             body = self.block(scope, ctx2, r.choice([1, 2, 3]))
+            items = self.closure_jump_items(scope, k, lbl, False)
+            pos = r.randrange(len(body[1]) + 1)
+            body[1][pos:pos] = items
             st = ('do', body, ('bin', 'lt', ('update', True, True, k), ('num', bound)))
         if lbl:
             st = ('label', lbl, st)
         out.append(st)
         return out
+
+    def closure_jump_items(self, scope, ctr, lbl, ctr_is_let):
+        """[let q = f(ctr);] funarr[funarr.length] = () => (ctr | q); [if (cond) continue [label];]  -- a closure created
+        in an iteration that may end with continue, called after the loop (per-iteration bindings, block stashes)."""
+        r = self.r
+        arrs = self.vars_of(scope, lambda v: v.ty == ('funarr',))
+        if not arrs or r.random() > 0.75:
+            return []
+        a = r.choice(arrs)
+        items, v = [], ctr
+        if not ctr_is_let or r.random() < 0.3:
+            q = self.fresh()
+            items.append(('decl', r.choice(['let', 'const']), [('d', q, ('bin', 'add', ('var', ctr), ('num', r.choice([0, 10]))))]))
+            v = q
+        ret = ('var', v) if r.random() < 0.7 else ('bin', 'add', ('var', v), ('var', ctr))
+        fd = dict(kind='arrow', params=[], rest=None, exprbody=True, body=[('return', ret)])
+        items.append(('expr', ('setidx', ('var', a.name), ('get', ('var', a.name), 'length'), ('func', fd))))
+        if r.random() < 0.7:
+            j = ('continue', lbl if (lbl and r.random() < 0.5) else None)
+            if r.random() < 0.3:
+                j = ('block', [j])
+            cond = r.choice([('bin', 'seq', ('var', ctr), ('num', r.choice([0, 1, 2]))), ('bin', 'lt', ('var', ctr), ('num', r.choice([1, 2]))),
+                             ('bin', 'gt', ('var', ctr), ('num', 0)), ('bool', True)])
+            items.append(('if', cond, j, ('empty',)))
+        return items
 
     def switch(self, scope, ctx):
         r = self.r
@@ -786,6 +814,27 @@ class Gen:
                 out.append(self.cv_gadget(scope, depth + 1, ctr))
             else:
                 out.append(r.choice([('empty',), ('block', []), ('decl', 'var', [('d', self.fresh(), ('num', 1))])]))
+        if r.random() < 0.4:
+            # the list ends in an `if` with a CONSTANT test whose live branch has an empty completion: the `if` is the
+            # last value-producing statement of the list and must reset the value (to undefined) whatever reached it
+            # (switch fall-through, an earlier iteration, a value before a labelled break, ...)
+            ctrue = r.choice([('bool', True), ('num', 1), ('str', 'k'), ('bin', 'seq', ('bin', 'add', ('num', 1), ('num', 1)), ('num', 2)),
+                              ('un', 'not', ('num', 0)), ('bin', 'seq', ('un', 'typeof', ('num', 1)), ('str', 'number')),
+                              ('logic', 'or', ('bool', False), ('num', 3))])
+            cfalse = r.choice([('bool', False), ('num', 0), ('str', ''), ('bin', 'lt', ('num', 2), ('num', 1)), ('un', 'not', ('num', 1)),
+                               ('logic', 'and', ('bool', True), ('num', 0)), ('null',)])
+            def empty():
+                return r.choice([('block', []), ('empty',), ('block', [('decl', 'var', [('d', self.fresh(), ('num', 1))])]),
+                                 ('block', [('decl', 'let', [('d', self.fresh(), ('num', 1))])]), ('block', [('empty',)])])
+            k = r.random()
+            if k < 0.45:
+                out.append(('if', ctrue, empty(), ('empty',)))
+            elif k < 0.75:
+                out.append(('if', cfalse, ('expr', ('num', 7)), empty()))
+            elif k < 0.9:
+                out.append(('if', cfalse, ('expr', ('num', 7)), ('empty',)))
+            else:
+                out.append(('if', ctrue, empty(), ('expr', ('num', 6))))
         return out
 
     def cv_gadget(self, scope, depth=0, outer_ctr=None):
@@ -806,7 +855,10 @@ class Gen:
             disc = ('var', outer_ctr) if outer_ctr and r.random() < 0.7 else ('num', r.choice([0, 1, 2]))
             cases = []
             for v in r.sample([0, 1, 2, 3], r.choice([2, 3])):
-                cases.append((('num', v), self.cv_items(scope, outer_ctr or k, depth, False, True)))
+                items = self.cv_items(scope, outer_ctr or k, depth, False, True)
+                if r.random() < 0.4:
+                    items = [it for it in items if it[0] != 'break'] + [('expr', ('num', r.choice([5, 8])))] if r.random() < 0.5 else items
+                cases.append((('num', v), items))
             if r.random() < 0.7:
                 cases.insert(r.randrange(len(cases) + 1), (None, self.cv_items(scope, outer_ctr or k, depth, False, True)))
             g = ('switch', disc, cases)
@@ -822,7 +874,7 @@ class Gen:
         g = Scope(None, is_fun=True)
         ctx = dict(fun=False, loop=0, labels=[], looplabels=[], sw=0)
         body = []
-        if r.random() < 0.5:
+        if r.random() < 0.7:
             a = self.fresh()
             g.vars[a] = Var(a, 'var', ('funarr',), assignable=False)
             body.append(('decl', 'var', [('d', a, ('arr', []))]))
@@ -830,7 +882,7 @@ class Gen:
         # use what was built: call the collected closures, log some variables
         for v in g.lookup_all():
             if v.ty == ('funarr',):
-                for i in range(3):
+                for i in range(4):
                     body.append(('expr', ('log', ('logic', 'and', ('idx', ('var', v.name), ('num', i)),
                                                   ('call', ('idx', ('var', v.name), ('num', i)), [])))))
             elif r.random() < 0.6 and (v.kind in ('var', 'function') or (isinstance(v.ty, tuple) and v.ty[0] == 'fun')):
@@ -849,9 +901,9 @@ class Gen:
                 else:
                     body.append(('expr', ('log', ('var', v.name))))
         c = r.random()
-        if c < 0.35:
+        if c < 0.5:
             body += self.cv_gadget(g)          # the completion value of the script comes from a compound statement
-        elif c < 0.75:
+        elif c < 0.8:
             body.append(('expr', self.expr(g, 'any')))
         return dict(body=body)
 
@@ -1559,3 +1611,87 @@ def const_assign_reads_first(prog):
             return ('assign', y[1], ('comma', y[2], ('var', y[1])))
         return y
     return go(prog)
+
+
+def gen_with_pair(rng):
+    """(original, variant) JS sources, sloppy mode only: a function with locals, a `with (o)` whose object has
+    same-named properties, and nested scopes (block / catch / for-let / switch) inside or around the with body that
+    own a let; the VARIANT additionally captures those lets in closures that are never called.  Capturing a
+    variable only moves it from the stack to a stash, so both must behave identically (goja vs goja)."""
+    r = rng
+    names = ['a', 'b', 'g', 'p', 'c']
+    nprops = r.sample(names, r.choice([2, 3, 4]))
+    decls = []
+    localkinds = {}
+    for n in ['a', 'b', 'c']:
+        k = r.choice(['var', 'var', 'let', 'none'])
+        localkinds[n] = k
+        if k != 'none':
+            decls.append('%s %s = %d;' % (k, n, r.choice([1, 2, 3])))
+    has_g = r.random() < 0.7
+    if has_g:
+        decls.append('function g() { return 7; }')
+    local_captured = r.random() < 0.2
+    if local_captured and localkinds['a'] != 'none':
+        decls.append('var keep = () => a;')
+    props = []
+    for n in nprops:
+        props.append('%s: %s' % (n, 'function () { return 70; }' if n == 'g' else str(r.choice([10, 20, 30]))))
+    obj = 'var o = {%s};' % ', '.join(props)
+
+    def accesses(t):
+        out = []
+        for _ in range(r.choice([2, 3, 4, 5])):
+            n = r.choice(['a', 'b', 'c', 'p'])
+            if localkinds.get(n, 'var') == 'none' and n not in nprops:
+                n = 'p'
+            k = r.random()
+            if k < 0.3: out.append('log(%s);' % n)
+            elif k < 0.45: out.append('%s = %s + %s;' % (n, n, t))
+            elif k < 0.55: out.append('%s += 2;' % n)
+            elif k < 0.65: out.append('log(%s++);' % n)
+            elif k < 0.75: out.append('log(typeof %s);' % n)
+            elif k < 0.9 and (has_g or 'g' in nprops): out.append('log(g());')
+            else: out.append('log(%s + %s);' % (n, t))
+        return ' '.join(out)
+
+    ctr = [0]
+
+    def nest(depth, capture):
+        ctr[0] += 1
+        t = 't%d' % ctr[0]
+        capk = r.choice([0, 1])          # drawn in both variants so that they differ in nothing else
+        cap = ''
+        if capture:
+            cap = ['(() => %s);' % t, 'var h%d = function () { return %s; };' % (ctr[0], t)][capk]
+        inner = accesses(t)
+        if depth > 0 and r.random() < 0.5:
+            inner += ' ' + nest(depth - 1, capture)
+        if depth > 0 and r.random() < 0.3:
+            inner = 'with (o) { %s }' % inner
+        k = r.random()
+        if k < 0.35:
+            return '{ let %s = %d; %s %s }' % (t, r.choice([1, 5]), cap, inner)
+        if k < 0.55:
+            return 'try { throw %d; } catch (%s) { %s %s }' % (r.choice([1, 5]), t, cap, inner)
+        if k < 0.8:
+            return 'for (let %s = 0; %s < %d; %s++) { %s %s }' % (t, t, r.choice([1, 2]), t, cap, inner)
+        return 'switch (1) { case 1: let %s = %d; %s %s }' % (t, r.choice([1, 5]), cap, inner)
+
+    state = r.getstate()
+    progs = []
+    for capture in (False, True):
+        r.setstate(state)          # identical choices for both variants
+        ctr[0] = 0
+        outer_block = r.random() < 0.3
+        body = nest(r.choice([0, 1, 2]), capture)
+        w = 'with (o) { %s }' % body
+        if outer_block:
+            ctr[0] += 1
+            t = 't%d' % ctr[0]
+            w = '{ let %s = 4; %s %s log(%s); }' % (t, ('(() => %s);' % t) if capture else '', w, t)
+        tail = ' '.join('log(%s);' % n for n in ['a', 'b', 'c'] if localkinds[n] != 'none') + ' log(p);' + \
+               ' '.join(' log(o.%s);' % n for n in nprops if n != 'g')
+        src = 'function F(p) { %s %s %s %s return p; } log(F(5));' % (' '.join(decls), obj, w, tail)
+        progs.append(src)
+    return progs[0], progs[1]
